@@ -789,10 +789,17 @@ func (r *rend) stmt(s *N) {
 			r.line("%s = make(map[int]int)", s.S)
 		}
 	case "asgidx":
+		dst := "arr[" + idx(&N{K: "var", RawX: s.RawX}) + "]"
+		if s.S != "" {
+			dst = s.S + "[" + key(&N{K: "var", RawX: s.RawX}) + "]"
+			if s.Bare {
+				dst = s.S + "[" + s.X() + "]" // the model discards the program unless 0 <= x <= 3
+			}
+		}
 		if s.Form == "xfirst" {
-			r.line("%s, arr[%s] = %s, %s", s.X(), idx(&N{K: "var", RawX: s.RawX}), Expr(s.A), Expr(s.B))
+			r.line("%s, %s = %s, %s", s.X(), dst, Expr(s.A), Expr(s.B))
 		} else {
-			r.line("arr[%s], %s = %s, %s", idx(&N{K: "var", RawX: s.RawX}), s.X(), Expr(s.B), Expr(s.A))
+			r.line("%s, %s = %s, %s", dst, s.X(), Expr(s.B), Expr(s.A))
 		}
 	case "slswap":
 		r.line("%s[%d], %s[%d] = %s[%d], %s[%d]", s.S, s.Lo, s.S, s.Hi, s.S, s.Hi, s.S, s.Lo)
